@@ -1,0 +1,94 @@
+//go:build verif
+// +build verif
+
+package veriftrace
+
+import (
+	"encoding/json"
+	"fmt"
+	"os"
+	"sync"
+	"sync/atomic"
+)
+
+// Enabled reports whether tracing is compiled in.
+const Enabled = true
+
+// Event is one recorded event. Seq is a process-wide sequence number taken
+// when Emit is called (i.e. inside the emitting loop, after the state change).
+type Event struct {
+	Seq       uint64                 `json:"seq"`
+	Component string                 `json:"component"`
+	ID        string                 `json:"id"`
+	Event     string                 `json:"event"`
+	KV        map[string]interface{} `json:"kv,omitempty"`
+}
+
+var (
+	seq    uint64
+	mu     sync.RWMutex
+	sink   func(Event)
+	gateFn func(name string)
+
+	fileOnce sync.Once
+	fileMu   sync.Mutex
+	file     *os.File
+)
+
+// SetSink installs (or, with nil, removes) the event sink.
+func SetSink(fn func(Event)) {
+	mu.Lock()
+	sink = fn
+	mu.Unlock()
+}
+
+// SetGate installs (or, with nil, removes) the gate function. The function is
+// called synchronously from Gate and may block.
+func SetGate(fn func(name string)) {
+	mu.Lock()
+	gateFn = fn
+	mu.Unlock()
+}
+
+// Emit records one event. kv is a list of alternating keys and values.
+func Emit(component, id, event string, kv ...interface{}) {
+	mu.RLock()
+	fn := sink
+	mu.RUnlock()
+	path := os.Getenv("VERIF_TRACE")
+	if fn == nil && path == "" {
+		return
+	}
+	ev := Event{Seq: atomic.AddUint64(&seq, 1), Component: component, ID: id, Event: event}
+	if len(kv) > 0 {
+		ev.KV = make(map[string]interface{}, len(kv)/2)
+		for i := 0; i+1 < len(kv); i += 2 {
+			ev.KV[fmt.Sprint(kv[i])] = kv[i+1]
+		}
+	}
+	if fn != nil {
+		fn(ev)
+	}
+	if path != "" {
+		fileOnce.Do(func() {
+			file, _ = os.OpenFile(path, os.O_CREATE|os.O_APPEND|os.O_WRONLY, 0644)
+		})
+		if file != nil {
+			if b, err := json.Marshal(ev); err == nil {
+				fileMu.Lock()
+				_, _ = file.Write(append(b, '\n'))
+				fileMu.Unlock()
+			}
+		}
+	}
+}
+
+// Gate is a scheduling point a harness may block.
+func Gate(name string) {
+	mu.RLock()
+	fn := gateFn
+	mu.RUnlock()
+	if fn != nil {
+		fn(name)
+	}
+}
